@@ -44,7 +44,7 @@ def scenario(ctx, trace, run_id, sw, ww, rnd, nops, max_offers=3, rst_closes=Tru
                 offers = op["offers"]
                 cl.send_text(announce_msg(op["h"], op["pid"], op["event"], op["left"], offers, op["answer"]),
                              binary=rnd.random() < 0.2)
-                got = settle(live(), 0.12)
+                got = settle(live(), 0.12, sender=cl)
                 frames = [abstract_frame(m, n) for n, m in got]
                 stats["frames"] += len(frames)
                 others = order_like(offers or [], [f for f in frames if f["to"][0] != cl.name])
@@ -59,7 +59,7 @@ def scenario(ctx, trace, run_id, sw, ww, rnd, nops, max_offers=3, rst_closes=Tru
                               "out": others + mine})
             elif op["op"] == "scrape":
                 cl.send_text(scrape_msg(op["hs"], op.get("single", False)))
-                got = settle(live(), 0.12)
+                got = settle(live(), 0.12, sender=cl)
                 frames = [abstract_frame(m, n) for n, m in got]
                 stats["frames"] += len(frames)
                 trace.append({"ev": "scrape", "c": [cl.name, 0], "fam": op["fam"], "hs": op["hs"], "out": frames})
@@ -83,7 +83,7 @@ def scenario(ctx, trace, run_id, sw, ww, rnd, nops, max_offers=3, rst_closes=Tru
             fc = WsClient("final%d" % fam, ip, ("127.0.0.1", port) if fam == 4 else ("::1", port))
             clients[fc.name] = fc
             fc.send_text(scrape_msg([1, 2, 17]))
-            got = settle([fc], 0.2)
+            got = settle([fc], 0.2, sender=fc)
             trace.append({"ev": "scrape", "c": [fc.name, 0], "fam": fam, "hs": [1, 2, 17],
                           "out": [abstract_frame(m, n) for n, m in got]})
         if not t.alive():
@@ -133,7 +133,7 @@ def second_pid_scenario(ctx, trace, run_id):
                           "conn_closed_by_tracker": cl.closed,
                           "out": [f for f in frames if f["to"][0] != cl.name] + mine})
         b.send_text(scrape_msg([1]))
-        got = settle([b], 0.3)
+        got = settle([b], 0.3, sender=b)
         trace.append({"ev": "scrape", "c": ["B", 0], "fam": 4, "hs": [1], "out": [abstract_frame(m, n) for n, m in got]})
     finally:
         for c in cls:
@@ -168,7 +168,7 @@ def empty_scrape_scenario(ctx, trace, run_id):
                       "scenario": "empty_scrape"})
         cl = WsClient("E", "127.0.0.2", ("127.0.0.1", port))
         cl.send_text(json.dumps({"action": "scrape", "info_hash": []}))
-        got = settle([cl], 0.4)
+        got = settle([cl], 0.4, sender=cl, max_wait=1.0)
         trace.append({"ev": "scrape", "c": ["E", 0], "fam": 4, "hs": [], "out": [abstract_frame(m, n) for n, m in got]})
     finally:
         if cl:
@@ -276,14 +276,14 @@ def c03_ws(ctx):
         seq = [(a, 4, 1, 1), (b, 4, 1, 2), (d, 6, 1, 3), (a, 4, 2, 1), (d, 6, 2, 3)]
         for cl, fam, h, pid in seq:
             cl.send_text(announce_msg(h, pid, "started", 1, [7], []))
-            got = settle(cls, 0.15)
+            got = settle(cls, 0.15, sender=cl)
             frames = [abstract_frame(m, n) for n, m in got]
             trace.append({"ev": "announce", "c": [cl.name, 0], "fam": fam, "h": h, "pid": pid, "event": "started",
                           "left": 1, "offers": [7], "answer": [], "now": 0, "refused": False,
                           "out": [f for f in frames if f["to"][0] != cl.name] + [f for f in frames if f["to"][0] == cl.name]})
         for cl, fam in ((a, 4), (d, 6), (b, 4)):
             cl.send_text(scrape_msg([1, 2]))
-            got = settle(cls, 0.15)
+            got = settle(cls, 0.15, sender=cl)
             trace.append({"ev": "scrape", "c": [cl.name, 0], "fam": fam, "hs": [1, 2],
                           "out": [abstract_frame(m, n) for n, m in got]})
     finally:
